@@ -28,7 +28,7 @@ _C09 = {
     'group_sites': 'streams finite / infinite / segment',
     'group_split': 'streams finite / infinite / segment',
     'get_grouped_mps': 'streams finite / infinite',
-    'spatial_inversion': 'streams finite / infinite',
+    'spatial_inversion': 'streams finite / infinite / segment',
     'enlarge_mps_unit_cell': 'stream infinite',
     'roll_mps_unit_cell': 'stream infinite',
     'extract_segment': 'streams finite / infinite / segment (op extract_segment), constructor of the stream segment',
@@ -138,7 +138,7 @@ OPTION_SPACE = {
     'group_sites': {'n': ['default', '2', '3', 'L', 'not-dividing-L'], 'grouped_sites': ['default', 'None', 'list'], '<bc>': [BCF, BCI, BCS]},
     'group_split': {'trunc_par': ['default', 'None', 'loose', 'truncating'], '<bc>': [BCF, BCI, BCS]},
     'get_grouped_mps': {'blocklen': ['2', '3'], '<bc>': [BCF, BCI]},
-    'spatial_inversion': {'<bc>': [BCF, BCI]},
+    'spatial_inversion': {'<recorded boundaries of a segment>': ['none', 'recorded'], '<bc>': [BCF, BCI, BCS]},
     'enlarge_mps_unit_cell': {'factor': ['default', '2', '3'], '<bc>': [BCI]},
     'roll_mps_unit_cell': {'shift': ['default', '0', '1', '-1', 'L', 'other'], '<bc>': [BCI]},
     'extract_segment': {'first': ['0', 'inner', 'negative'], 'last': ['L-1', 'inner', 'beyond-cell'],
@@ -157,6 +157,21 @@ def value_reached(pattern, values):
     if pattern == '<int>':
         return any(v.lstrip('-').isdigit() for v in values)
     return pattern in values
+
+
+def missing_classes(refl, optlog):
+    """[(method, parameter, class)] of the required value classes that no call has received yet"""
+    out = []
+    for cname in ANCHOR_CLASSES:
+        for fn, params in refl.get(cname, {}).items():
+            space = OPTION_SPACE.get(fn)
+            if CLASSIFY.get(fn, ('?',))[0] != 'C09' or not isinstance(space, dict):
+                continue
+            for pn, want in space.items():
+                if isinstance(want, list):
+                    got = optlog.get(fn, {}).get(pn, {})
+                    out += [(fn, pn, w) for w in want if not w.startswith('?') and not value_reached(w, got)]
+    return out
 
 
 def option_coverage(refl, optlog):
